@@ -7,7 +7,7 @@ from vf import devmon
 from vf.gen import drivers as D
 
 LEVEL = "exploration"
-RULE = ("EXHAUSTIVE: for rule in {OneOfMany, AtMostOne, AnyOfMany} x n in 1..5 switches x every rule-conforming initial configuration "
+RULE = ("EXHAUSTIVE: for rule in {OneOfMany, AtMostOne, AnyOfMany} x n in 1..5 switches (thorough: 1..7) x every rule-conforming initial configuration "
         "(via default_on; for OneOfMany also all-Off), breadth-first over the state graph of a real generated driver: each node is "
         "installed with reset_selected_values, then EVERY operation is applied - client write On/Off to one switch (real "
         "newSwitchVector through the real Router), client writes naming 2 and 3 switches with every value combination, driver "
@@ -18,8 +18,8 @@ ASSUMPTIONS = ["the exact successor of a multi-switch write is left open (only t
                "bulk selection of several switches under OneOfMany/AtMostOne must keep the invariants and must not raise"]
 REQUIRED_EVENTS = ["states", "transitions", "published_updates_judged", "client_writes", "driver_assignments", "bulk_selections",
                    "client_writes_with_injected_fault"]
-EXHAUSTIVE_NOTE = "the complete reachable state graph for every rule, 1..5 switches and every initial configuration, every operation on every node"
-SHARDED = False
+EXHAUSTIVE_NOTE = "the complete reachable state graph for every rule, 1..5 switches (thorough: 1..7) and every initial configuration, every operation on every node"
+SHARDED = True
 RULES = ["OneOfMany", "AtMostOne", "AnyOfMany"]
 
 
@@ -213,8 +213,12 @@ def initial_configs(rule, n):
 
 
 def run(ctx):
+    i = 0
     for rule in RULES:
-        for n in range(1, 6):
+        for n in range(1, 6 if not ctx.thorough else 8):
+            i += 1
+            if not ctx.mine(i):
+                continue
             explored = set()
             for init in initial_configs(rule, n):
                 explore(ctx, rule, n, init, explored)
